@@ -89,7 +89,7 @@ MCPrefixes == {{{", ".join('"%s"' % p for p in prefixes)}}}
             trace.append({"ev": "count", "prefix": e["prefix"], "pre": e["pre"], "t": e["t"]})
         for o in ls:
             if "outcome" in o:
-                trace.append({"ev": "job", "q": o["q"], "sig": [o["outcome"], o["debug"], o["display"], o["rendered"], o["names"]],
+                trace.append({"ev": "job", "q": o["q"], "sig": [o["outcome"], o["debug"], o["display"], o["rendered"], o["names"], o.get("nsql", ""), o.get("types", "")],
                               "render_twice_same": o["render_twice_same"], "phase": o["phase"], "thread": o["thread"], "pos": o["pos"], "proc": proc})
     tp = os.path.join(wd, "trace.ndjson")
     C.write_ndjson(tp, trace)
@@ -100,12 +100,12 @@ MCPrefixes == {{{", ".join('"%s"' % p for p in prefixes)}}}
         if e["ev"] == "job":
             sql = pool[e["q"]]
             first = next(x for x in trace if x["ev"] == "job" and x["q"] == e["q"])
-            differing = [n for n, a, b in zip(("outcome", "debug", "display", "rendered", "names"), first["sig"], e["sig"]) if a != b]
+            differing = [n for n, a, b in zip(("outcome", "debug", "display", "rendered", "names", "nsql", "types"), first["sig"], e["sig"]) if a != b]
             if "random()" in sql.lower():
                 feat = "uses_random()"
-            elif differing == ["debug"]:
-                # same display, same rendered SQL, same names: only a field the Display does not show differs
-                feat = "only-the-Debug-rendering-differs"
+            elif "types" in differing and "nsql" not in differing and "outcome" not in differing:
+                # the same SQL up to generated names (which hash the content, types included): only column types differ
+                feat = "only-column-types-differ"
             else:
                 feat = sql[:120]
             rep.fail(f"{judge}/{feat}", f"judge {judge}: the output of compiling the same query differs between two runs",
